@@ -29,7 +29,8 @@ def truncMul (c : Float) (t : Fixed64) : Fixed64 :=
     (MinTransactionFee ≤ fee ≤ the spent 1000 ELA) -/
 def genFees : List String → List Int
   | _ :: fee :: rest =>
-    match int? fee with
+    -- a trailing "s" marks an old-format SideChainPow: it pays its fee like a transfer
+    match int? (String.ofList (fee.toList.filter (· != 's'))) with
     | some f => if 100 ≤ f ∧ f ≤ 100000000000 then f :: genFees rest else genFees rest
     | none => genFees rest
   | _ => []
@@ -39,13 +40,14 @@ def parseAddr (s : String) : Addr :=
   | "cr" => .crAssets
   | "des" => .destroy
   | "stk" => .stakeReward
+  | "spl" => .other 1000002
   | "min" => .other 1000000
   | "fnd" => .other 1000001
   | _ => .other ((s.drop 1).toNat?.getD 999999)
 
 def fmtAddr : Addr → String
   | .crAssets => "cr" | .destroy => "des" | .stakeReward => "stk"
-  | .other 1000000 => "min" | .other 1000001 => "fnd" | .other n => "o" ++ toString n
+  | .other 1000000 => "min" | .other 1000001 => "fnd" | .other 1000002 => "spl" | .other n => "o" ++ toString n
 
 def parseOuts : Nat → List String → Option (List Out)
   | 0, _ => some []
@@ -69,7 +71,7 @@ def fmtRes : CbRes → String
 def fmtOuts (os : List Out) : String :=
   toString os.length ++ String.join (os.map (fun o => " " ++ toString (toInt o.value) ++ " " ++ fmtAddr o.addr))
 
-def stepC11 : List String → String
+def stepCore : List String → String
   | ["rew", newH, halvH, interval, old, h] =>
     match nat? newH, nat? halvH, nat? interval, int? old, nat? h with
     | some newH, some halvH, some interval, some old, some h =>
@@ -123,5 +125,12 @@ def stepC11 : List String → String
         fmtRes (coinbaseCheck cr30 dp35 active h (pow == "1") (ofInt fees) (ofInt reward) (dp35 total) outs)
     | _, _, _, _ => "bad-op"
   | _ => "bad-op"
+
+/-- `cbn <net> …` / `asgn <net> …` = the same rule under the reward addresses of a network preset
+    (the model's addresses are the fixed ones the property names) -/
+def stepC11 : List String → String
+  | "cbn" :: _net :: rest => stepCore ("cb" :: rest)
+  | "asgn" :: _net :: rest => stepCore ("asg" :: rest)
+  | t => stepCore t
 
 def main : IO Unit := runPure stepC11
